@@ -122,12 +122,13 @@ def race_stage(ctx, seconds):
 
 
 def kvhandle_stage(ctx):
-    """spec/KVHandle.tla: keyvalue.FS at store-transaction grain. TLC enumerates every interleaving of the steps of eight (thorough: nine)
+    """spec/KVHandle.tla: keyvalue.FS at store-transaction grain. TLC enumerates every interleaving of the steps of eleven (thorough: thirteen)
     two-goroutine programs (and checks that a write-back only ever replaces the handle's own file); every complete behaviour is
     forced onto the real code through the controlled store's scheduling points and its results and final contents compared."""
     vh = ctx.build()
     sd = ctx.specdir()
-    for prog in (("p1", "p2", "p3", "p4", "p5", "p6", "p8", "p9") if ctx.tier == "quick" else ("p1", "p2", "p3", "p4", "p5", "p6", "p7", "p8", "p9")):
+    for prog in (("p1", "p2", "p3", "p4", "p5", "p6", "p8", "p9", "p10", "p12", "p13") if ctx.tier == "quick"
+                 else ("p1", "p2", "p3", "p4", "p5", "p6", "p7", "p8", "p9", "p10", "p11", "p12", "p13")):
         meta = tempfile.mkdtemp(prefix="meta-", dir=ctx.scratch)
         out = os.path.join(ctx.scratch, "kvhandle-%s.json" % prog)
         tlc_cmd = ["timeout", "900", "tlc", "-workers", "4", "-metadir", meta, "-config", "KVHandle.%s.cfg" % prog, "MC_KVHandle.tla"]
